@@ -371,6 +371,36 @@ def minimise(mod, case, signature, budget_s=10):
     return cur
 
 
+class CaseTimeout(BaseException):
+    """not an Exception: harness code that plays the caller of the real code (`except Exception: go on`) must not swallow it"""
+
+
+class case_timeout:
+    """SIGALRM-based limit for one run of the real code (main thread only; a no-op elsewhere)"""
+
+    def __init__(self, seconds):
+        self.seconds = seconds
+        self.armed = False
+
+    def __enter__(self):
+        import signal
+        import threading
+        if threading.current_thread() is threading.main_thread() and hasattr(signal, "setitimer"):
+            def fire(signum, frame):
+                raise CaseTimeout(f"one case ran for more than {self.seconds}s on the real code")
+            self.old = signal.signal(signal.SIGALRM, fire)
+            signal.setitimer(signal.ITIMER_REAL, self.seconds)
+            self.armed = True
+        return self
+
+    def __exit__(self, *a):
+        if self.armed:
+            import signal
+            signal.setitimer(signal.ITIMER_REAL, 0)
+            signal.signal(signal.SIGALRM, self.old)
+        return False
+
+
 # ---------------------------------------------------------------------------
 # the pipeline
 
@@ -386,6 +416,9 @@ def run_check(mod, tier="quick", seed=0, replay=None):
             log(f"[{pid}] translator failed (cannot import the working tree):\n{err[-2000:]}")
             return 2
         log(f"[{pid}] extract: {summary['machines']} machines, {summary['transitions']} transitions, changed={summary['changed']}")
+        for name, why in summary.get("failed_sections", []):
+            log(f"[{pid}] translator could not regenerate WV.Gen.{name} from the working tree ({why}); it keeps its previous text and "
+                f"WV.Props.Common.translator_covers_everything will not check")
         pr = prove(pid, COMMON_MODULES + list(mod.PROP_MODULES), extra_targets=tuple(["wvdriver"] + list(getattr(mod, "EXTRA_TARGETS", ()))),
                    native_ok=tuple(getattr(mod, "NATIVE_DECIDE_MODULES", ())))
     log(f"[{pid}] prove: build_ok={pr['build_ok']} driver_ok={pr['driver_ok']} theorems={len(pr['theorems'])} "
@@ -409,10 +442,24 @@ def run_check(mod, tier="quick", seed=0, replay=None):
     results = []
     cases = []
     harness_errors = []
-    for case in mod.cases(rng, tier):
+    # A changed implementation may make a run of the real code very slow or endless (a loop that no longer ends, a
+    # container that grows over all cases).  That is a broken tie ("could not observe the implementation"), not a reason
+    # to hang: one case gets at most CASE_LIMIT seconds, all cases together RUN_LIMIT (about ten times what the
+    # unchanged tree needs); what is left is skipped and reported.
+    case_limit = int(os.environ.get("VERIF_CASE_LIMIT", "120" if tier == "quick" else "600"))
+    run_limit = int(os.environ.get("VERIF_RUN_LIMIT", "420" if tier == "quick" else "3600"))
+    t_cases = time.time()
+    skipped = 0
+    all_cases = list(mod.cases(rng, tier))
+    for idx, case in enumerate(all_cases):
+        if time.time() - t_cases > run_limit:
+            skipped = len(all_cases) - idx
+            harness_errors.append((case, f"TimeoutError: the cases did not finish within {run_limit}s ({skipped} of {len(all_cases)} not run)"))
+            break
         try:
-            r = mod.run_case(case)
-        except Exception as e:  # the harness itself failed: infrastructure, not a verdict
+            with case_timeout(case_limit):
+                r = mod.run_case(case)
+        except (Exception, CaseTimeout) as e:  # the harness itself failed: infrastructure, not a verdict
             harness_errors.append((case, traceback.format_exc()))
             continue
         cases.append(case)
